@@ -518,7 +518,7 @@ class Prop(Check):
             "spelling (single / double quotes, \\xHH \\uHHHH \\UHHHHHHHH octal \\N{name} single-character escapes, bare "
             "backslashes; values that need escapes: quotes, backslash, tab); spelling-matrix cases: keyword-like literal x "
             "kind of escape x position x use of the literal x ignore_case on glued / not glued inputs, symbol literals "
-            "written with escapes, invalid escapes; srcs cases: ~450 string tokens as written (pool literals x spelling, "
+            "written with escapes, invalid escapes; srcs cases: ~350 string tokens as written (pool literals x spelling, "
             "non-escapes, invalid escapes) through visit_str_match; lits cases: all literals of "
             "length <= 3 over {a,1,_,é,+,.} and pool / random Unicode literals through visit_str_match.  non-trivial = a "
             "gram case with a keyword-like literal that is accepted with autokwd, or in which a keyword-like literal is "
@@ -775,7 +775,7 @@ class Prop(Check):
                 toks.append(spell_token(rng, v, 0.5))
         toks = sorted(set(toks))
         if tier == "quick":
-            toks = rng.sample(toks, min(len(toks), 400))
+            toks = rng.sample(toks, min(len(toks), 300))
         toks = RAW_TOKENS + toks
         out = []
         for ic in (False, True):
